@@ -832,7 +832,22 @@ var everythingExtras = []wname{
 	{"SortedValues", 5}, {"SortedValuesFunc", 6}, {"FromJSON:valid", 6}, {"FromJSON:malformed", 4},
 }
 
+// newCase: the property's own profile; for the properties whose profile is mutators only, one case in seven
+// mixes in the rest of the API of the same kinds (serialisation through both entry points, iterators,
+// enumerable functions, set algebra, sorted values): what those calls do to the container is visible in the
+// observations that follow.
 func (g *generator) newCase(prop string, i int) *caseGen {
+	c := g.newCaseBase(prop, i)
+	switch prop {
+	case "C01", "C03", "C04", "C05", "C06", "C09", "C10":
+		if g.chance(15) {
+			c.plan = g.mixPlan(c.cfg.Kind, len(c.plan), 72, 3, everythingExtras)
+		}
+	}
+	return c
+}
+
+func (g *generator) newCaseBase(prop string, i int) *caseGen {
 	switch prop {
 	case "all", "C18":
 		return g.newCase(propNames[i%17], i) // C01..C17 in turn: a mix of everything
@@ -924,7 +939,7 @@ func (g *generator) newCase(prop string, i int) *caseGen {
 	case "C15":
 		c := g.baseCase(g.pick(allKinds))
 		// every reachable state: successful loads are mutators too (C15 quantifies over all histories)
-		c.plan = g.mixPlan(c.cfg.Kind, g.length(), 80, 10, []wname{{"FromJSON:valid", 8}, {"FromJSON:malformed", 2}})
+		c.plan = g.mixPlan(c.cfg.Kind, g.length(), 78, 10, []wname{{"FromJSON:valid", 8}, {"FromJSON:malformed", 2}, {"SortedValues", 2}})
 		return c
 	case "C16":
 		c := g.baseCase(g.pick(allKinds))
